@@ -752,3 +752,13 @@ Proof.
   intros Hv Hb. unfold subr_biased_index, add32, i16 in *. rewrite chk_s32_some by (unfold i32; lia).
   cbn [obind]. discriminate.
 Qed.
+
+(* ---- COLR variation index ---- *)
+Lemma no_trap_colr_var_index has_map base i : colr_var_index has_map base i <> None.
+Proof. discriminate. Qed.
+Lemma colr_var_index_value base i : 0 <= base <= 4294967295 -> 0 <= i < 16 -> base + i <= 4294967295 ->
+  colr_var_index true base i = Some (base + i) /\ colr_var_index false base i = Some ((base + i) mod 65536).
+Proof.
+  intros Hb Hi Hs. unfold colr_var_index. rewrite wrap_u_id by (change (2 ^ 32) with 4294967296; lia).
+  split; reflexivity.
+Qed.
